@@ -29,18 +29,24 @@ func schedFaultScenarios(action string) []faultScenario {
 	}
 	return []faultScenario{
 		// one fault per shard of a two-shard selector (series 0/1 -> shard 0, series 2 -> shard 1)
-		{"F1:a/two shards fail in Next", `a`, 4, 2, []mstore.Fault{f("seek", 0, 0), f("seek", 2, 0)}, 2},
+		{"F1:a/two shards fail in Next", `a`, 4, 2, []mstore.Fault{f("next", 0, 0), f("next", 2, 0)}, 2},
 		{"F2:a/two shards fail while loading", `a`, 4, 2, []mstore.Fault{f("iterator", 0, 0), f("iterator", 2, 0)}, 2},
-		{"F3:a/one shard fails late", `a`, 4, 12, []mstore.Fault{f("seek", 2, 3)}, 1},
+		{"F3:a/one shard fails late", `a`, 4, 12, []mstore.Fault{f("next", 2, 3)}, 1},
 		{"F4:a+b/both sides fail while loading", `a + on (l) group_left b`, 2, 2, []mstore.Fault{f("select", -1, 0), f("select", -1, 1)}, 2},
-		{"F5:a+b/left fails in Next", `a + on (l) group_left b`, 2, 2, []mstore.Fault{f("seek", 1, 1)}, 2},
-		{"F6:sum by (l)(a)/fault below workers", `sum by (l) (a)`, 4, 2, []mstore.Fault{f("seek", 0, 1), f("seek", 2, 1)}, 1},
-		{"F7:rate/two shards", `rate(a[1m])`, 4, 2, []mstore.Fault{f("seek", 0, 0), f("seek", 2, 1)}, 2},
-		{"F8:-a/fault below unary workers", `-a`, 2, 2, []mstore.Fault{f("seek", 1, 0)}, 2},
+		{"F5:a+b/left fails in Next", `a + on (l) group_left b`, 2, 2, []mstore.Fault{f("next", 1, 1)}, 2},
+		{"F6:sum by (l)(a)/fault below workers", `sum by (l) (a)`, 4, 2, []mstore.Fault{f("next", 0, 1), f("next", 2, 1)}, 1},
+		{"F7:rate/two shards", `rate(a[1m])`, 4, 2, []mstore.Fault{f("seek", 0, 0), f("next", 2, 1)}, 2},
+		{"F8:-a/fault below unary workers", `-a`, 2, 2, []mstore.Fault{f("next", 1, 0)}, 2},
 		{"F9:querier fails", `a + b`, 2, 2, []mstore.Fault{f("querier", -1, 1)}, 2},
-		{"F10:clamp_min scalar arg fails", `clamp_min(a, scalar(b{l="0"}))`, 2, 2, []mstore.Fault{f("seek", 3, 0)}, 2},
+		{"F10:clamp_min scalar arg fails", `clamp_min(a, scalar(b{l="0"}))`, 2, 2, []mstore.Fault{f("next", 3, 0)}, 2},
+		// a failure in the 4th batch, when the exchange buffer (2 slots) may be full
+		{"F11:a/failure in the 4th batch", `a`, 2, 41, []mstore.Fault{f("next", 0, 31)}, 2},
+		{"F12:sum by (l)(a)/failure in the 4th batch", `sum by (l) (a)`, 2, 41, []mstore.Fault{f("next", 1, 33)}, 1},
+		{"F13:a+b/failure in the 4th batch", `a + on (l) group_left b`, 2, 41, []mstore.Fault{f("next", 3, 35)}, 1},
 	}
 }
+
+var fired, notFired int64
 
 func runFaultSched(c *check.Ctx, prop, action string, events []string, oracle func(root *explore.Obs) func(o *explore.Obs, s explore.Sched) (string, string)) {
 	for _, fs := range schedFaultScenarios(action) {
@@ -51,6 +57,9 @@ func runFaultSched(c *check.Ctx, prop, action string, events []string, oracle fu
 		}
 		s := schedScenario{Scenario: explore.Scenario{Name: fs.name + "/" + action, Case: cs}, DQuick: d, DThorough: fs.d}
 		runSchedAllowFailingRoot(c, &s, prop, events, oracle)
+		c.Rep.Extra["sched_faults_fired"] += fired
+		c.Rep.Extra["sched_faults_not_reached"] += notFired
+		fired, notFired = 0, 0
 		if c.Expired() || c.Rep.HarnessErr != "" {
 			return
 		}
@@ -71,8 +80,10 @@ func init() {
 					return sym, det
 				}
 				if len(o.Fired) == 0 {
+					notFired++
 					return "", "" // the schedule never reached the faulty callback
 				}
+				fired++
 				if o.ExecErr == nil {
 					return "storage-error-lost", fmt.Sprintf("storage faults %v fired but the query succeeded: %s", o.Fired, o.Res.String())
 				}
